@@ -7,7 +7,7 @@ from hypothesis import strategies as st
 from ..gen import moments as GM
 from ..gen import spectra as GS
 from ..gen.common import fl
-from ..harness import SubCheck, require
+from ..harness import SubCheck, Violation, require
 from ..oracle import spec as O
 
 VARIANTS = [("mem", None), ("mem2", "newton"), ("mem2", "scipy"), ("mem2", "approximate")]
@@ -22,7 +22,8 @@ META = {
              "Non-trivial = resultant R>0.05 (not isotropic); distinct = sha1 of the case."),
     "assumptions": [
         "non-negativity slack -1e-15*max(D); normalisation |sum D*dtheta - 1| <= 1e-9 per frequency",
-        "batch independence: the batch element equals the one-element call within 1e-12 of the distribution maximum (fastmath SIMD reductions are alignment dependent at the 1-ulp level, so bit-for-bit equality is not stable across machines)",
+        "batch independence: the batch element equals the one-element call within 1e-9 of the distribution maximum where the solver converged (fastmath SIMD reductions are alignment dependent at the 1-ulp level, so bit-for-bit equality is not stable across machines) and within 2e-2 where an iterative solver did not converge (its path amplifies last-bit differences); batch mixing produces O(1) differences",
+        "known finding F23: MEM is undefined for moments whose second reflection coefficient (c2-c1^2)/(1-|c1|^2) has modulus exactly 1; generated moments within 1e-6 of that boundary are nudged off it (counted), the documented input is a fixed case",
         "round trip e(f) within 1e-9 relative; metadata byte-identical",
         "noisy moments are finite and strictly inside the unit disc (radius <= 0.999) as the property states",
     ],
@@ -46,8 +47,9 @@ def dist_case(draw):
             "pick": draw(st.integers(0, n - 1))}
 
 
-def check_distribution(D, N, what):
-    require(np.isfinite(D).all(), "distribution_finite", lambda: f"{what}: non-finite values")
+def check_distribution(D, N, what, match=None):
+    if not np.isfinite(D).all():
+        raise Violation("distribution_finite", f"{what}: non-finite values", match=match)
     mx = float(np.max(D))
     require(float(np.min(D)) >= -1e-15 * max(mx, 1.0), "distribution_non_negative",
             lambda: f"{what}: min={float(np.min(D))!r}")
@@ -67,7 +69,9 @@ def run_dist(c):
     kw = {} if sm is None else {"solution_method": sm}
     D = np.asarray(est(*arrs, d, method=method, **kw))
     require(D.shape == shape + (N,), "output_shape", f"{D.shape} vs {shape + (N,)}")
-    check_distribution(D, N, f"method={method}/{sm} N={N}")
+    degenerate = method == "mem" and any(abs(GM.phi2_modulus(q["m"]) - 1.0) < 1e-9 for q in c["quads"])
+    check_distribution(D, N, f"method={method}/{sm} N={N} moments={M[~np.isfinite(D.reshape(len(M), -1)).all(axis=1)][:2].tolist()}",
+                       match={"mem_reflection_coefficient_modulus_one": bool(degenerate)})
     # batch independence: element `pick` alone
     j = c["pick"]
     one = [np.array([M[j, i]]) for i in range(4)]
@@ -75,21 +79,32 @@ def run_dist(c):
     Dj = D.reshape(-1, N)[j]
     # not bit-for-bit: the jitted kernels use fastmath SIMD reductions whose summation order depends on
     # the run-time alignment of the arrays (1-ulp differences were observed on a fresh machine)
-    require(D1.shape == (1, N) and np.abs(D1[0] - Dj).max() <= 1e-12 * max(float(np.abs(Dj).max()), 1e-300),
+    thj = np.radians(d)
+    mj = np.array([(Dj * fn(k * thj)).sum() * 360.0 / N for fn, k in ((np.cos, 1), (np.sin, 1), (np.cos, 2), (np.sin, 2))])
+    converged = float(np.linalg.norm(mj - M[j])) <= 0.0101 or method == "mem" or sm == "approximate"
+    # where an iterative solver did not converge (unrealisable moments) its 100-iteration path amplifies
+    # last-bit differences of the (vectorised vs scalar) initial guess; the result is then only compared loosely
+    btol = 1e-9 if converged else 2e-2
+    require(D1.shape == (1, N) and np.abs(D1[0] - Dj).max() <= btol * max(float(np.abs(Dj).max()), 1e-300),
             "batch_element_equals_single_call",
             lambda: f"method={method}/{sm} max diff={np.abs(D1[0] - Dj).max()!r} moments={M[j].tolist()}")
     R = np.hypot(M[:, 0], M[:, 1])
     classes = [f"variant_{method}_{sm}", f"shape_{len(shape)}d"] + sorted({"kind_" + q["kind"] for q in c["quads"]})
+    nudged = sum(1 for q in c["quads"] if q.get("nudged_off_degenerate_boundary"))
     if any(not GM.realisable(q["m"]) for q in c["quads"]):
         classes.append("unrealisable_moments")
     spread = np.degrees(np.sqrt(2 * (1 - R)))
     if (spread < 10).any():
         classes.append("narrow_lt_10deg")
-    return {"nontrivial": bool((R > 0.05).any()), "classes": classes}
+    return {"nontrivial": bool((R > 0.05).any()), "classes": classes,
+            "excluded": {"moments_nudged_off_mem_degenerate_boundary": nudged}}
 
 
 def fixed_dist():
-    out = []
+    out = [
+        # known finding F23 (MEM only): second moments of modulus exactly one with a1=b1=0
+        {"shape": [1], "quads": [{"kind": "noisy", "m": [0.0, 0.0, 0.0, 1.0]}], "N": 8, "t0": 0.0, "variant": 0, "pick": 0},
+    ]
     for v in range(4):
         for h in GM.HARD:
             out.append({"shape": [1], "quads": [{"kind": "hard", "m": list(h)}], "N": 36, "t0": 0.0,
@@ -146,7 +161,7 @@ def run_roundtrip(c):
         x2 = np.asarray(s2.dataset[name].values)
         require(x1.shape == x2.shape and x1.tobytes() == x2.tobytes(), "roundtrip_keeps_" + name, f"{x1} vs {x2}")
     require(list(s2.dims_space_time) == list(spec.dims_space_time), "roundtrip_keeps_dims", "")
-    pos = np.isfinite(e0) & (e0 > 0)
+    pos = np.isfinite(e0) & (e0 > 1e-200)      # dividing by subnormal energies is meaningless
     Dn = E.reshape(a["n"], nf, N)[pos] / e0[pos][:, None]
     if Dn.size:
         check_distribution(Dn, N, f"spectrum method={method}/{sm}")
